@@ -138,12 +138,44 @@ pub fn options_j(o: &Options) -> J {
 	})
 }
 
+/// the compact preset AS DOCUMENTED (no indentation, no spacing, no limits) - not whatever `Options::compact()` returns
+pub fn is_documented_compact(o: &Options) -> bool {
+	matches!(o.indent, Indent::Spaces(0))
+		&& [o.array_begin, o.array_end, o.array_empty, o.array_before_comma, o.array_after_comma, o.object_begin, o.object_end, o.object_empty, o.object_before_comma, o.object_after_comma, o.object_before_colon, o.object_after_colon]
+			.iter()
+			.all(|x| *x == 0)
+		&& o.array_limit.is_none()
+		&& o.object_limit.is_none()
+}
+
 pub fn replay_print(rep: &mut Report, rec: &J) {
 	rep.count("print_vectors");
 	let v = build(&rec["v"]).unwrap_or_else(|e| tool_error(&e));
 	let o = options(&rec["o"]);
 	let exp = cps_to_string(&rec["text"]).unwrap_or_else(|| tool_error("print vector: text"));
-	let is_compact = o == Options::compact();
+	// which documented preset the SPECIFICATION says this record is (never the library's own idea of its presets)
+	let preset = rec["preset"].as_str().unwrap_or("");
+	let is_compact = preset == "compact";
+	if !preset.is_empty() {
+		let (made, by_method) = match preset {
+			"compact" => (Options::compact(), v.compact_print().to_string()),
+			"pretty" => (Options::pretty(), v.pretty_print().to_string()),
+			_ => (Options::inline(), v.inline_print().to_string()),
+		};
+		rep.add("print_calls", 1);
+		let aspect = if is_compact { "C08.compact" } else { "C13.layout" };
+		if options_j(&made) != options_j(&o) {
+			rep.mismatch(aspect, json!({"what": format!("Options::{preset}() is not the documented preset"), "vector": rec, "documented": options_j(&o), "observed": options_j(&made)}));
+		}
+		if by_method != exp {
+			rep.mismatch(aspect, json!({"what": format!("{preset}_print() differs from the documented layout of the preset"), "vector": rec, "expected_text": exp, "observed_text": by_method}));
+		}
+		match guarded(|| v.print_with(made.clone()).to_string()) {
+			Ok(t) if t != exp => rep.mismatch(aspect, json!({"what": format!("print_with(Options::{preset}()) differs from the documented layout of the preset"), "vector": rec, "expected_text": exp, "observed_text": t})),
+			Err(p) => rep.mismatch("C13.panic", json!({"what": "printer panicked", "vector": rec, "panic": p})),
+			_ => (),
+		}
+	}
 	if rep.counters["print_vectors"] % 5 == 2 {
 		disturb_print();
 	}
@@ -188,12 +220,6 @@ pub fn replay_print(rep: &mut Report, rec: &J) {
 			}
 			_ => (),
 		}
-	}
-	if o == Options::pretty() && v.pretty_print().to_string() != exp {
-		rep.mismatch("C13.layout", json!({"what": "pretty_print differs from print_with(pretty)", "vector": rec}));
-	}
-	if o == Options::inline() && v.inline_print().to_string() != exp {
-		rep.mismatch("C13.layout", json!({"what": "inline_print differs from print_with(inline)", "vector": rec}));
 	}
 	// C04: the real output (whatever it is) re-parses to the value with the real strict parser
 	// Formatter flags (width, fill, alignment, precision, sign, alternate) given to `{}` must not reach INSIDE the document:
@@ -634,7 +660,7 @@ pub fn replay_wide(rep: &mut Report, rec: &J) {
 		}
 	};
 	rep.count("print_calls");
-	let is_compact = o == Options::compact();
+	let is_compact = is_documented_compact(&o);
 	if got != exp {
 		let at = got.bytes().zip(exp.bytes()).position(|(a, b)| a != b).unwrap_or(got.len().min(exp.len()));
 		let d = json!({"what": "printed text of a wide value differs from the closed form validated by the specification", "input": ctx, "printed_len": got.len(), "expected_len": exp.len(),
